@@ -201,6 +201,13 @@ impl InterfaceInner {
             return None;
         }
 
+        if ipv6_repr.src_addr.is_loopback() && !self.has_ip_addr(ipv6_repr.src_addr) {
+            // The loopback address never appears on the wire (RFC 4291 2.5.3); answering
+            // such a packet would also make us send from ::1.
+            net_debug!("loopback source address");
+            return None;
+        }
+
         if !self.has_ip_addr(ipv6_repr.dst_addr)
             && !self.has_multicast_group(ipv6_repr.dst_addr)
         {
